@@ -2,11 +2,12 @@
    Covered: CartesianProductBimorphism, PairBimorphism, KeyedBimorphism (parametric in ANY wrapped
    bimorphism, hence every nesting of Keyed over Cartesian / Pair).
    GHT bimorphisms (lattices/src/ght/lattice.rs), on e2-coll's trie model: GhtCartesianProduct and
-   GhtValTypeProduct full; DeepJoin / GhtNodeKeyed towers up to the set of rows (_rows_partial).
+   GhtValTypeProduct full; DeepJoin / GhtNodeKeyed towers full (C07_ght_deep_join, proof in
+   Coll/PGHTEq.v by e2-coll); the earlier rows-only statement (_rows_partial) is kept.
    Full statement, for a bimorphism f and all well-formed a, da, b, db:
      f(a merged da, b) = f(a, b) merged f(da, b)   and   f(a, b merged db) = f(a, b) merged f(a, db)
    up to the output lattice's own equality. *)
-From HV Require Import Coll.ModelGHT Coll.PGHT Lattice.MorphGHT Lattice.PMorphGHT.
+From HV Require Import Coll.ModelGHT Coll.PGHT Lattice.MorphGHT Lattice.PMorphGHT Coll.PGHTEq.
 From HV Require Import Lattice.Univ Lattice.Morph Lattice.PMorph.
 
 (* EVERY shape  Cartesian | Pair(ta, tb) | Keyed(shape)  -- PairBimorphism under any number of
@@ -128,6 +129,25 @@ Proof.
   - exact (@deep_join_distrib_r h d nk a b db Wa Wb Wdb La Lb Ldb).
 Qed.
 Print Assumptions C07_ght_deep_join_rows_partial.
+
+(* FULL STATEMENT for the deep join at any height, with the crate's == (peq): for tries built by
+   the public API -- invariant PGHT.wf: distinct child keys, NO EMPTY CHILD, rows below child k
+   carry k, leaves are sets; established by Default and preserved by insert and merge
+   (C08_insert, C08_merge; C07_ght_inputs_wf for the harness's tries) -- the two sides have, level
+   by level, the same keys and ==-equal children (the outputs themselves may hold empty children;
+   == is structural there, and the structures coincide). *)
+Theorem C07_ght_deep_join : forall h d nk a da b db,
+  PGHT.wf h d a -> PGHT.wf h d da -> PGHT.wf h d b -> PGHT.wf h d db ->
+  Forall (fun x : row => h + d <= length x) (riter h a) ->
+  Forall (fun x : row => h + d <= length x) (riter h da) ->
+  Forall (fun x : row => h + d <= length x) (riter h b) ->
+  Forall (fun x : row => h + d <= length x) (riter h db) ->
+  peq h (deep_join h nk (fst (ModelGHT.merge h a da)) b)
+        (fst (ModelGHT.merge h (deep_join h nk a b) (deep_join h nk da b))) = true /\
+  peq h (deep_join h nk a (fst (ModelGHT.merge h b db)))
+        (fst (ModelGHT.merge h (deep_join h nk a b) (deep_join h nk a db))) = true.
+Proof. exact deep_join_distrib_peq. Qed.
+Print Assumptions C07_ght_deep_join.
 
 (* the tries the harness builds (rows of one arity inserted into Default) satisfy the hypotheses *)
 Theorem C07_ght_inputs_wf : forall nk arity rows,
